@@ -269,6 +269,14 @@ def content_edits(ctx, F):
                 r = x.sname(x.term(g)["d"], 5)
                 if not re.match(r"^discr\((?:<.*?Iterator>::next|(?:\w+::)*as_reference)\(", r):
                     extra.append("line %d: %s" % (c.ln, r[:80]))
+    if npush == 0:
+        # the list is built by an iterator chain instead of a loop: nothing in the chain may drop or reorder elements other than
+        # "it is not a reference" (filter_map over as_reference)
+        for x in lib.local_scope(F, gp):
+            for c in x.calls:
+                if re.search(r"iter::Iterator::(filter|skip|skip_while|take|take_while|step_by|rev|dedup\w*)$|itertools::.*::(unique|dedup)\w*$|Vec::<.*>::(dedup\w*|retain|sort\w*)$", c.fn or ""):
+                    extra.append("line %d: %s" % (c.ln, (c.fn or "").rsplit("::", 1)[-1]))
+        npush = 1 if any(re.search(r"iter::Extend::extend$|Vec::<.*>::extend$|iter::Iterator::collect$|Vec::<.*>::extend_from_slice$", c.fn or "") for x in lib.local_scope(F, gp) for c in x.calls) else 0
     ctx.ob("R-ORDER", "contents-listed-in-full|get_page_contents", npush >= 1 and not extra, "the push of a content stream id inside the loop depends only on the element being a reference", gp.where(),
            what="get_page_contents does not list every element of a /Contents array (%s): a stream named twice, or one the extra test rejects, is missing from the page's content and is lost when the content is rewritten" % (extra or "no push in a loop"))
     ctx.ob("R-SIB", "contents-forms|get_page_contents", need <= rv_, "get_page_contents reads a reference and an array", gp.where(),
